@@ -275,6 +275,12 @@ def rule_r1(ctx) -> List[R.Inst]:
     except OverflowError:
         insts.append(R.undec(rid, "paths", file, inner.lineno, "too many paths through the per-row body"))
         return insts
+    if paths and not any(_note_appends(p_) for p_ in paths):
+        # no path of the per-row body feeds a list that becomes the result's hits / holds: the rows are collected in intermediate
+        # lists and distributed afterwards in a way the extractors do not follow — no verdict (not "0 output notes")
+        insts.append(R.undec(rid, "paths", file, inner.lineno,
+                             "the per-row body appends to intermediate lists only; how they are split into hits and holds afterwards is not followed"))
+        return insts
     for pth in paths:
         apps = _note_appends(pth)
         cond_txt = pth.cond_text()
@@ -441,6 +447,10 @@ def rule_r2(ctx) -> List[R.Inst]:
             compared.append(other)
             return tab.get(op)
         return None
+    if paths and not any(_note_appends(p_) for p_ in paths):
+        insts.append(R.undec(rid, "decision-table", file, inner.lineno,
+                             "the per-row body appends to intermediate lists only; how they are split into hits and holds afterwards is not followed"))
+        return insts
     table = {}
     und = None
     for pth in paths:
